@@ -70,6 +70,7 @@ def check(repo, col, tier):
     c10.view_trainables(repo, col, "R-C19-viewtrain")
     c10.filter_rows(repo, col, "R-C19-viewtrain")
     c10.trainable_count(repo, col, "R-C19-viewtrain")
+    c10.view_count(repo, col, "R-C19-viewtrain")
     # registries of the base module (channels, groups, ...) are extended on the base's own current registry: an edit made through a
     # second view must see what the first view added (shared with C10/C11/C14)
     col.rule("R-C19-recs", "recordings are (rec_index, state) pairs with unique row labels", 2)
